@@ -3,7 +3,7 @@ import hashlib, unicodedata
 from harness.core import Case
 from harness.canon import hx, tx
 from harness.props.mnemonic_common import IMPL, BIP39_LANGS, V2_LANGS, V2_TYPES, oracle_for, salt_field, nfkd
-from harness.props.c01 import pre_build, words_of, spec_encode, respell
+from harness.props.c01 import pre_build, words_of, spec_encode, respell, gen_encode
 from harness.props.c17 import v2_valid_entropy
 from bip_utils import (Bip39SeedGenerator, Bip39Languages, ElectrumV1MnemonicEncoder, SubstrateBip39SeedGenerator,
                        ElectrumV2SeedGenerator, ElectrumV1SeedGenerator)
@@ -30,7 +30,14 @@ def gen(rng, tier):
             bad[rng.randrange(len(bad))] = rng.choice(lists[lang])
             sb = " ".join(bad if rng.random() < 0.7 else bad[:-1])
             yield Case("bip39seed", [lang, tx(sb), oracle_for(sb), salt_field("mnemonic", p)], "neg-invalid-sentence")
-    for i in range(3 if tier == "quick" else 60):
+    # self-consistent sentences of an illegal word count (multiples of 3 outside 12..24) never yield a seed
+    for i in range(9 if tier == "quick" else 90):
+        lang = BIP39_LANGS[i % 9]
+        ws = gen_encode(lists[lang], bytes(rng.randrange(256) for _ in range([4, 8, 12, 36, 40, 48][i % 6])))
+        sb = " ".join(ws)
+        yield Case("bip39seed", [rng.choice([lang, "auto"]), tx(sb), oracle_for(sb), salt_field("mnemonic", "")], "neg-count-mult3")
+        yield Case("subseed", [lang, tx(sb), oracle_for(sb), salt_field("mnemonic", "")], "neg-count-mult3")
+    for i in range(4 if tier == "quick" else 60):
         t, lang = V2_TYPES[i % 4], V2_LANGS[i % 4]
         e, s = v2_valid_entropy(rng, (132, 264)[i % 2], t, lang)
         if s is None:
